@@ -3,6 +3,7 @@ mod families;
 mod gosem;
 mod irck;
 mod oracle;
+mod sched;
 mod ug;
 
 use drive::Tier;
